@@ -4,6 +4,8 @@ import FlacVerif.Driver.KernelDrv
 import FlacVerif.Driver.CompDrv
 import FlacVerif.Driver.ParDrv
 import FlacVerif.Driver.ApiDrv
+import FlacVerif.Driver.HistoryDrv
+import FlacVerif.Driver.ParserDrv
 open FlacVerif Proto Drv
 
 def renderAll (id : String) (vs : List Verdict) (stats : List String) : List String :=
@@ -22,6 +24,8 @@ def handle (line : String) : List String :=
   | "comp" => let (vs, st) := compRecord r; renderAll id vs st
   | "par" => let (vs, st) := parRecord r; renderAll id vs st
   | "api" => let (vs, st) := apiRecord r; renderAll id vs st
+  | "history" => let (vs, st) := historyRecord r; renderAll id vs st
+  | "parser" => let (vs, st) := parserRecord r; renderAll id vs st
   | k => [s!"SKIP {id} unknown-record-kind-{k}"]
 
 partial def loop (h : IO.FS.Stream) (out : IO.FS.Stream) : IO Unit := do
